@@ -149,7 +149,7 @@ def container(inp):
 def gen_ctor(tier, seed):
     for case in ("hist_unsorted_edges", "hist_descending_range", "hist_no_spec", "hist_nbins_mismatch", "hist_range_mismatch", "xy_shape_mismatch", "xy_2d", "indexed_2d",
                  "simple_corr", "simple_2d", "matrix_1d", "matrix_cor_diag", "matrix_cor_no_err", "matrix_cov_err", "matrix_unknown_type", "float_list_corr", "covmat_not_square",
-                 "constraint_asym", "constraint_shape", "constraint_cor_diag", "constraint_cor_gt1", "constraint_unknown_type", "constraint_cor_no_unc", "constraint_cov_unc",
+                 "constraint_asym", "constraint_cor_asym", "constraint_cor_rel_asym", "constraint_shape", "constraint_cor_diag", "constraint_cor_gt1", "constraint_unknown_type", "constraint_cor_no_unc", "constraint_cov_unc",
                  "node_reserved_name", "node_bad_identifier", "cl_zero", "cl_one", "sigma_neg", "cl_ndim0", "cl_two_specs"):
         yield {"case": case}
 
@@ -173,6 +173,8 @@ CTOR = {
     "float_list_corr": lambda: err_mod.cov_mat_from_float_list([0.1, 0.2], correlation=-0.2),
     "covmat_not_square": lambda: err_mod.CovMat([[1.0, 0.0, 0.0], [0.0, 1.0, 0.0]]),
     "constraint_asym": lambda: cons_mod.GaussianMatrixParameterConstraint([0, 1], [1.0, 2.0], [[1.0, 0.2], [0.1, 1.0]]),
+    "constraint_cor_asym": lambda: cons_mod.GaussianMatrixParameterConstraint([0, 1], [1.0, 2.0], [[1.0, 0.5], [0.2, 1.0]], matrix_type="cor", uncertainties=[0.1, 0.2]),
+    "constraint_cor_rel_asym": lambda: cons_mod.GaussianMatrixParameterConstraint([0, 1], [1.0, 2.0], [[1.0, 0.5], [0.2, 1.0]], matrix_type="cor", uncertainties=[0.1, 0.2], relative=True),
     "constraint_shape": lambda: cons_mod.GaussianMatrixParameterConstraint([0, 1], [1.0, 2.0], [[1.0, 0.0, 0.0], [0.0, 1.0, 0.0], [0.0, 0.0, 1.0]]),
     "constraint_cor_diag": lambda: cons_mod.GaussianMatrixParameterConstraint([0, 1], [1.0, 2.0], [[1.0, 0.0], [0.0, 0.9]], matrix_type="cor", uncertainties=[0.1, 0.2]),
     "constraint_cor_gt1": lambda: cons_mod.GaussianMatrixParameterConstraint([0, 1], [1.0, 2.0], [[1.0, 1.5], [1.5, 1.0]], matrix_type="cor", uncertainties=[0.1, 0.2]),
@@ -231,6 +233,7 @@ FIT_BAD = {
     "constraint_unknown_name": lambda f: f.add_parameter_constraint("nope", 1.0, 0.1),
     "matrix_constraint_unknown_name": lambda f: f.add_matrix_parameter_constraint([f.parameter_names[0], "nope"], [1.0, 2.0], [[1.0, 0.0], [0.0, 1.0]]),
     "matrix_constraint_len": lambda f: f.add_matrix_parameter_constraint(list(f.parameter_names[:2]), [1.0], [[1.0]]),
+    "matrix_constraint_cor_asym": lambda f: f.add_matrix_parameter_constraint(list(f.parameter_names[:2]), [1.0, 2.0], [[1.0, 0.5], [0.2, 1.0]], matrix_type="cor", uncertainties=[0.05, 0.1]),
     "matrix_constraint_asym": lambda f: f.add_matrix_parameter_constraint(list(f.parameter_names[:2]), [1.0, 2.0], [[1.0, 0.3], [0.1, 1.0]]),
     "limit_unknown": lambda f: f.limit_parameter("nope", 0.0, 1.0),
     "limit_none": lambda f: f.limit_parameter(f.parameter_names[0]),
@@ -298,7 +301,7 @@ def fit(inp):
 
 
 def gen_graph(tier, seed):
-    for case in ("dependency_cycle", "dependency_self", "dependency_unknown", "add_duplicate", "add_cycle_replace", "alias_unknown", "bad_existing_behavior"):
+    for case in ("dependency_cycle", "dependency_cycle_naming_an_existing_dependency", "dependency_cycle_existing_last", "dependency_self", "dependency_unknown", "add_duplicate", "add_cycle_replace", "alias_unknown", "bad_existing_behavior"):
         for used in (False, True):
             yield {"case": case, "used": used}
 
@@ -318,7 +321,7 @@ def graph(inp):
     before = snap_graph(g)
     vals = lambda: (a.value, f.value, h.value)
     try:
-        {"dependency_cycle": lambda: g.add_dependency("f", "h"), "dependency_self": lambda: g.add_dependency("f", "f"), "dependency_unknown": lambda: g.add_dependency("f", ("a", "nope")),
+        {"dependency_cycle": lambda: g.add_dependency("f", "h"), "dependency_cycle_naming_an_existing_dependency": lambda: g.add_dependency("f", ("a", "h")), "dependency_cycle_existing_last": lambda: g.add_dependency("f", ("h", "a")), "dependency_self": lambda: g.add_dependency("f", "f"), "dependency_unknown": lambda: g.add_dependency("f", ("a", "nope")),
          "add_duplicate": lambda: g.add(nx.Parameter(3.0, name="a")), "add_cycle_replace": lambda: g.add(nx.Function(lambda h: h, name="a", parameters=[h]), existing_behavior="replace"),
          "alias_unknown": lambda: g.add_alias("z", alias_for="nope"), "bad_existing_behavior": lambda: g.add(nx.Parameter(3.0, name="q"), existing_behavior="whatever")}[inp["case"]]()
         return {"got": "accepted", "expected": "exception", "witness_class": "accepted:" + inp["case"]}
